@@ -158,6 +158,17 @@ _bic_iso9362_re ='''),
                 spec = registry.get("bic")
         assert isinstance(spec, dict)
         entries = spec.get(str(self), [])''')]),
+    dict(id="m14_torn_lazy_attribute_on_shared_object", prop="C14", expect="flag", patches=[
+        (IBAN, '''    @property
+    def numeric(self) -> int:
+        """int: A numeric represenation of the IBAN."""
+        return numerify(self.bban + self[:4])''', '''    @property
+    def numeric(self) -> int:
+        """int: A numeric represenation of the IBAN."""
+        if "_numeric" not in self.__dict__:
+            self.__dict__["_numeric"] = None
+            self.__dict__["_numeric"] = numerify(self.bban + self[:4])
+        return self.__dict__["_numeric"]''')]),
     # ---------------------------------------------------------------- C15
     dict(id="m15_memo_ignores_flags", prop="C15", expect="flag", patches=[
         (IBAN, '''_spec_to_re: dict[str, str]''', '''_validated: set = set()
@@ -411,8 +422,8 @@ DET = {
     "C13": (["checks/c13.py", "--runs", "1270", "--digests", "--no-evidence"], ["checks/c13.py", "--runs", "254", "--digests", "--no-evidence"]),
     "C14": (["checks/c14.py", "--runs", "600", "--digests", "--no-evidence", "--no-sweep"], ["checks/c14.py", "--runs", "100", "--digests", "--no-evidence", "--no-sweep"]),
     "C15": (["checks/c15.py", "--runs", "400", "--fresh", "2", "--digests", "--no-evidence"], ["checks/c15.py", "--runs", "100", "--fresh", "1", "--digests", "--no-evidence"]),
-    "C18": (["checks/c18.py", "--runs", "400", "60", "200", "--fresh", "2", "--digests", "--no-evidence"],
-            ["checks/c18.py", "--runs", "100", "20", "50", "--fresh", "1", "--digests", "--no-evidence"]),
+    "C18": (["checks/c18.py", "--runs", "400", "60", "200", "40", "--fresh", "2", "--digests", "--no-evidence"],
+            ["checks/c18.py", "--runs", "100", "20", "50", "20", "--fresh", "1", "--digests", "--no-evidence"]),
 }
 
 
